@@ -94,6 +94,11 @@ def gen_case(rng, tier):
             if strat == "merge" and cfg["fmf"]:
                 kw["force_merge_fields"] = list(cfg["fmf"])
             ops.append({"op": "update", "feats": feats, "form": rng.choice(FORMS), "kw": kw, "other_dialect": rng.random() < 0.12})
+            if feats and rng.random() < 0.12:
+                # the very same update applied a second time (a job run twice), possibly after a reopen
+                if rng.random() < 0.4:
+                    ops.append({"op": "reopen", "keep_reader": False})
+                ops.append(copy.deepcopy(ops[-1] if ops[-1]["op"] == "update" else ops[-2]))
         elif k == "delete":
             ids = rng.sample(idpool, rng.choice([1, 1, 2]))
             form = rng.choice(["str", "strs", "feature", "features", "gen"]) if len(ids) == 1 else rng.choice(["strs", "features", "gen"])
@@ -104,7 +109,7 @@ def gen_case(rng, tier):
         elif k == "add_relation":
             p, c = rng.sample(idpool[:9], 2)
             ops.append({"op": "add_relation", "parent": p, "child": c, "level": rng.choice([1, 1, 2]),
-                        "child_func": rng.choice([None, None, "set_parent", "assign_child"]),
+                        "child_func": rng.choice([None, None, "set_parent", "assign_child", "raise"]),
                         "as_feature": rng.random() < 0.3})
         elif k == "reopen":
             ops.append({"op": "reopen", "keep_reader": rng.random() < 0.3})
@@ -628,6 +633,11 @@ class Hist(object):
         except ModelError as e:
             expect_fail = str(e)
             self.model = pre.clone()
+        if k == "add_relation" and op.get("child_func") == "raise" and not expect_fail:
+            # the user's child_func raises after the relation and the parent row were written: the call fails, nothing of it stays
+            expect_fail = "the child_func callback raises"
+            self.model = pre.clone()
+            self.probes["add_relation_callback_raises"] = self.probes.get("add_relation_callback_raises", 0) + 1
         req = self.request(j, op)
         if fault:
             req["faults"] = [_fault_spec(fault)] if ("at" in fault or "kind" in fault) else []
@@ -734,8 +744,11 @@ class Hist(object):
         if k == "delete":
             return {"op": "delete", "h": "h", "ids": op["ids"], "form": op["form"], "kw": dict(op.get("kw") or {})}
         if k == "add_relation":
-            return {"op": "add_relation", "h": "h", "parent": op["parent"], "child": op["child"], "level": op["level"],
-                    "child_func": op.get("child_func"), "as_feature": op.get("as_feature", False)}
+            rq = {"op": "add_relation", "h": "h", "parent": op["parent"], "child": op["child"], "level": op["level"],
+                  "child_func": op.get("child_func"), "as_feature": op.get("as_feature", False)}
+            if op.get("child_func") == "raise":
+                rq["parent_func"] = "stretch"
+            return rq
         raise ValueError(k)
 
     def liveness(self, j):
